@@ -210,6 +210,8 @@ let thrift_run fn argstr =
        | TErr e -> "err:" ^ terr_name e
        | TPanic -> "PANIC"
        | TOutOfFuel -> "OUTOFFUEL")
+  | ("t.msg" | "t.longcut"), _ -> "-\t-"   (* message headers and long truncated strings: compared with the specification / oracle only *)
+  | ("t.rt.x" | "t.enc.x"), _ -> "-\t-"   (* shapes outside the universe of the model (enum on other widths than i32) *)
   | "t.strict", [ts; h; p] ->
       (* Decoder.Decode after SetStrict(true): Thrift/SpecC.v TDecode *)
       let t = tty_of_sx (parse_sx ts) in
@@ -381,7 +383,7 @@ let proto_run fn argstr =
        | Ok None -> "err"
        | Panic -> "PANIC"
        | OutOfFuel -> "OUTOFFUEL")
-  | ("p.topto" | "p.unexp"), _ -> "-\t-"   (* declared Go shapes and top-level scalars: outside the descriptor universe of the model *)
+  | ("p.topto" | "p.unexp" | "p.seq" | "p.alloc" | "p.custom" | "p.customwire" | "p.boundto"), _ -> "-\t-"   (* declared Go shapes and top-level scalars: outside the descriptor universe of the model *)
   | "p.scan", [h] ->
       (match scan0 (bytes_of_hex h) with
        | ROk l -> "ok " ^ String.concat "" (List.map (fun ((f, t), v) -> Printf.sprintf "%s:%s:%s " (string_of_z f) (string_of_z t) (hex_of_bytes v)) l)
@@ -422,6 +424,14 @@ let run fn args =
   | "a.suffix", [x; y] ->
       let a = bytes_of_hex x and b = bytes_of_hex y in
       both (ascii_HasSuffixFold a b) (ascii_HasSuffixFoldString a b) ^ "\t" ^ tf (has_suffix_fold a b)
+  | "a.alias", [h; i1; j1; i2; j2] ->
+      (* two windows of one buffer: the model has no notion of sharing, the windows are just two byte strings *)
+      let buf = bytes_of_hex h in
+      let sub i j = List.filteri (fun k _ -> k >= int_of_string i && k < int_of_string j) buf in
+      let a = sub i1 j1 and b = sub i2 j2 in
+      let e = tf (fold_eq a b) and p = tf (has_prefix_fold a b) and s = tf (has_suffix_fold a b) in
+      (tf (ascii_EqualFold a b)) ^ (tf (ascii_EqualFoldString a b)) ^ (tf (ascii_HasPrefixFold a b)) ^ (tf (ascii_HasPrefixFoldString a b)) ^ (tf (ascii_HasSuffixFold a b)) ^ (tf (ascii_HasSuffixFoldString a b))
+      ^ "\t" ^ e ^ e ^ p ^ p ^ s ^ s
   | "a.byte", [v] ->
       let n = int_of_string v in
       let z = z_of_int n in
